@@ -21,7 +21,7 @@ for pid in sorted(k for k in REG if not k.startswith("_")):
     })
 m = {
     "version": 1,
-    "setup_cmd": "cd /verif/vx/vxspan && CARGO_NET_OFFLINE=true cargo build --offline 2>&1 | tail -3 && cd /verif/replay && CARGO_NET_OFFLINE=true cargo build --offline 2>&1 | tail -1",
+    "setup_cmd": "cd /verif/vx/vxspan && CARGO_NET_OFFLINE=true cargo build --offline 2>&1 | tail -3 && cd /verif/replay && CARGO_NET_OFFLINE=true cargo build --offline 2>&1 | tail -1 && cd /verif && CARGO_NET_OFFLINE=true CARGO_TARGET_DIR=/verif/build/scrutbin cargo build --offline --bin scrut --manifest-path /repo/Cargo.toml 2>&1 | tail -1",
     "hooks": {
         "guard": "cfg(kani)",
         "enable": "set only by the Kani compiler (cargo kani); engine VX (Verus) needs no hook: it reads /repo's sources",
